@@ -80,21 +80,21 @@ type violation struct {
 
 type collector struct {
 	mu          sync.Mutex
-	Property    string                     `json:"property"`
-	Evaluations int64                      `json:"evaluations"`
-	Hashes      map[uint64]struct{}        `json:"-"`
-	HashList    []uint64                   `json:"hashes"`
-	Classes     map[string]int64           `json:"classes"`
-	Samples     map[string][]interface{}   `json:"samples"`
-	Excluded    map[string]int64           `json:"excluded_known"`
-	Known       []string                   `json:"known_active"`
-	KnownLines  []string                   `json:"known_lines"`
-	Violations  []violation                `json:"violations"`
-	Requested   map[string]int             `json:"requested"`
-	Achieved    map[string]int             `json:"achieved"`
-	Exhaustive  map[string]bool            `json:"exhaustive"`
-	Notes       map[string]string          `json:"notes"`
-	Rules       map[string]string          `json:"rules"`
+	Property    string                   `json:"property"`
+	Evaluations int64                    `json:"evaluations"`
+	Hashes      map[uint64]struct{}      `json:"-"`
+	HashList    []uint64                 `json:"hashes"`
+	Classes     map[string]int64         `json:"classes"`
+	Samples     map[string][]interface{} `json:"samples"`
+	Excluded    map[string]int64         `json:"excluded_known"`
+	Known       []string                 `json:"known_active"`
+	KnownLines  []string                 `json:"known_lines"`
+	Violations  []violation              `json:"violations"`
+	Requested   map[string]int           `json:"requested"`
+	Achieved    map[string]int           `json:"achieved"`
+	Exhaustive  map[string]bool          `json:"exhaustive"`
+	Notes       map[string]string        `json:"notes"`
+	Rules       map[string]string        `json:"rules"`
 	sampleSeen  map[string]int64
 }
 
